@@ -41,6 +41,8 @@ MapLines ==
     MethodAst(B("void"), <<B("keep.K")>>, B("outer"), <<>>, <<D(6), D(6)>>, <<D(7), D(7)>>, B("q")),
     ClassAst(B("keep.K"), B("keep.K")),
     MethodAst(B("void"), <<>>, B("renamed"), <<>>, <<D(1), D(9)>>, <<D(101), D(109)>>, B("outer")),
+    \* (kept as it is, lines too: the remapped frame EQUALS the frame given - and is still written in the output form)
+    MethodAst(B("void"), <<>>, B("same"), <<>>, <<D(10), D(20)>>, <<D(10), D(20)>>, B("same")),
     ClassAst(B("com.example.Bar$Baz"), B("b.c")),
     SourceFileAst(B("Bar.kt")),
     MethodAst(B("void"), <<>>, B("plain"), <<>>, <<>>, <<>>, B("p"))>>
@@ -53,14 +55,14 @@ EmptyBlocks == <<>>
 \* ---- mode "roundtrip" ---------------------------------------------------------------------------
 \* (the last: a class name led by U+FEFF, which is not white space: a name like any other, also on the first line)
 RtClasses == {B("a.B"), B("a$b"), E \o B(".C"), <<239, 187, 191>> \o B("x.Y")} \cup (IF Rich THEN {B("x"), B("a:")} ELSE {})
-RtMessages == {<<>>, <<B(": ")>> , <<B("Caused by: x")>>, <<B("at a.b(c:1)")>>} \cup
+RtMessages == {<<>>, <<B(": ")>> , <<B("Caused by: x")>>, <<B("at a.b(c:1)")>>, <<B("died:") \o <<9>> \o B("at x.Y.m(F.java:7)")>>} \cup
               (IF Rich THEN {<<B("m") \o E>>, <<B("x: y: z")>>} ELSE {})
 RtThrowables == {T(c, m) : c \in RtClasses, m \in RtMessages}
 RtFrames == {F(c, m, l, f) :
                c \in {B("a.B"), B("a$b"), B("m@1/a.B$$L/0x1")} \cup (IF Rich THEN {E \o B(".C")} ELSE {}),
                m \in {B("<init>"), B("m")},
                l \in {D(0), U64Max} \cup (IF Rich THEN {D(1)} ELSE {}),
-               f \in {B("B.java"), B(""), B("x(y).java")} \cup (IF Rich THEN {B("<unknown>"), B("x(y)")} ELSE {})}
+               f \in {B("B.java"), B(""), B("x(y).java"), B("g") \o <<9>> \o B("at h.kt")} \cup (IF Rich THEN {B("<unknown>"), B("x(y)")} ELSE {})}
 RtFrameSeqs == {<<>>} \cup {<<f>> : f \in RtFrames} \cup
                (IF Rich THEN {<<f, g>> : f, g \in {F(B("a.B"), B("m"), D(0), B("B.java")), F(B("a$b"), B("<init>"), U64Max, B(""))}} ELSE {})
 RtLevel1 == {Lv(e, fs) : e \in {<<>>} \cup {<<t>> : t \in RtThrowables}, fs \in RtFrameSeqs}
@@ -86,6 +88,8 @@ TextLines ==
    B("    at zz.Unknown.f(X.java:1)"),         \* unmapped frame
    <<9>> \o B("at b.c.p(Native Method)"),      \* tab indented; "Native Method" has no ':' -> not a frame
    <<9>> \o B("at b.c.p(Unknown Source:7)"),   \* tab indented mapped frame
+   <<9>> \o B("at keep.K.same(K.java:15)  "),  \* tab indented, trailing blanks: resolves to an equal frame, written canonically
+   B("    at") \o <<194, 160>> \o B("a.m(SourceFile:2)"),   \* U+00A0 behind `at`: not a frame
    <<9>> \o B("at zz.Unknown.f(X.java:1)"),    \* the unmapped frame again, spelled differently (tab): lines that
    B("  at a.m(SourceFile:9)"),                \* parse to EQUAL frames but differ as text are each passed through as given
    <<194, 160>> \o B("at a.m(SourceFile:2)"),  \* indented with U+00A0: str::trim strips every Unicode White_Space character
@@ -112,7 +116,8 @@ TyFrames == {F(B("a"), B("m"), D(2), B("SourceFile")),     \* -> 1
              F(B("a"), B("o"), D(5), B("SourceFile")),     \* -> 2 identical frames
              F(B("zz.U"), B("f"), D(1), B("X.java")),      \* unknown class
              F(B("b.c"), B("p"), D(0), B("Y")),            \* no range entry, class-level file
-             F(B("a"), B("q"), D(6), B("SourceFile"))}     \* -> 2, the second of which is itself a key (keep.K.outer)
+             F(B("a"), B("q"), D(6), B("SourceFile")),     \* -> 2, the second of which is itself a key (keep.K.outer)
+             F(B("app//a"), B("m"), D(2), B("SourceFile"))} \* a class that merely ENDS in a mapped name: unknown
 \* runs of identical frames (deep recursion): every frame of a run is remapped on its own
 TyFrameSeqs == {<<>>} \cup {<<f>> : f \in TyFrames}
                \cup {<<f, g>> : f \in TyFrames, g \in (IF Rich THEN TyFrames ELSE {F(B("a"), B("n"), D(4), B("SourceFile")),
